@@ -310,6 +310,29 @@ class Minimal:
         return None if A is None else {'op': 'chk_minimal', 'D': inst['D'], 'A': enc.dfa_to_spec(A), 'len': inst['len']}
 
 
+def subset_dfa_text(N, start):
+    """the subset automaton of N explored from the given initial SUBSET (successors closed correctly), as DFA text"""
+    name = lambda S: '{' + ','.join(sorted(S)) + '}'
+    seen, todo, delta = {start}, [start], []
+    while todo and len(seen) < 40:
+        S = todo.pop()
+        for a in sorted(N.Sigma):
+            T = set()
+            for q in S:
+                T |= set(oracles.nfa_succ(N, q, a))
+            T = frozenset(oracles.eps_reach(N, T))
+            delta.append([name(S), a, name(T)])
+            if T not in seen:
+                seen.add(T)
+                todo.append(T)
+    spec = {'Q': sorted(name(S) for S in seen), 'Sigma': sorted(N.Sigma), 'delta': delta, 'q0': name(start),
+            'F': sorted(name(S) for S in seen if S & set(N.F))}
+    try:
+        return DA.print_dfa(enc.build_dfa(spec, check=False))
+    except Exception:
+        return None
+
+
 class Nfa2Dfa:
     name = 'nfa2dfa'
 
@@ -321,6 +344,17 @@ class Nfa2Dfa:
             eps, Sig = 'ε', ['a', '_']
         N = gen.random_nfa(rng, 4, Sig, eps, names)
         N['dd'] = True
+        if len(N['Q']) >= 3 and rng.random() < 0.3:     # an epsilon chain of length two leaving the initial state
+            a, b, c = N['Q'][:3]
+            N['q0'] = a
+            rows = {(p, x): T for p, x, T in N['delta']}
+            rows.setdefault((a, eps), [])
+            rows.setdefault((b, eps), [])
+            if b not in rows[(a, eps)]:
+                rows[(a, eps)] = rows[(a, eps)] + [b]
+            if c not in rows[(b, eps)]:
+                rows[(b, eps)] = rows[(b, eps)] + [c]
+            N['delta'] = [[p, x, T] for (p, x), T in rows.items()]
         return {'N': N}
 
     def own(self, inst, sc):
@@ -343,6 +377,15 @@ class Nfa2Dfa:
             lines = own.split('\n')
             if len(lines) > 5:
                 out.append('\n'.join(lines[:-1]))                                                  # drop a transition line
+        # subset constructions that start from a WRONG initial subset (no closure / one epsilon step only) and are consistent otherwise
+        N = enc.build_nfa(inst['N'])
+        q0 = inst['N']['q0']
+        one = {q0} | set(oracles.nfa_succ(N, q0, N.epsilon))
+        for init in ({q0}, one):
+            if init != oracles.eps_reach(N, {q0}):
+                t = subset_dfa_text(N, frozenset(init))
+                if t:
+                    out.append(t)
         return out
 
     def check(self, inst, ans):
@@ -746,6 +789,10 @@ class LanguageWords:
         ws = set('' if w in ('ε', '_') else w for w in inst['words'].split())
         return lang_of(A, inst['len']) == ws
 
+    def text_lean(self, inst, ans):
+        return {'op': 'chk_text', 'name': self.kind + '_language_words', 'answer': ans, 'ref': '', 'words': inst['words'],
+                'len': inst['len'], 'max': inst.get('max', 0)}
+
     def lean(self, inst, ans):
         A = self.parse(ans)
         if A is None:
@@ -798,6 +845,9 @@ class CfgLanguageWords:
 
     def check(self, inst, ans):
         return run_checker(NB.check_cfg_language_from_words, ans, inst['words'], inst['len'])
+
+    def text_lean(self, inst, ans):
+        return {'op': 'chk_text', 'name': 'cfg_language_words', 'answer': ans, 'ref': '', 'words': inst['words'], 'len': inst['len']}
 
     def criterion(self, inst, ans):
         A = self.parse(ans)
